@@ -432,7 +432,7 @@ pub fn run(ctx: &Ctx) -> Result<Ev, String> {
     // random mixed programs: sizes and ram_filling against the model
     let opts = ModelOpts { devices: model::model_devices() };
     let shards = 16usize;
-    let per = (if ctx.thorough { 100_000 } else { 2_000 } / shards) as u32;
+    let per = (if ctx.thorough { 200_000 } else { 8_000 } / shards) as u32;
     let seed = ctx.seed;
     let ev = par::run_shards("C12", shards, |s| {
         par::prop_shard("C12", seed, s, per, &c02::raw_prog(), |r, ev| {
